@@ -314,6 +314,9 @@ def gen_harness(items, prefix):
                 # "reuse": k = instantiate into the storage of instance k (which the script has freed before)
                 o.append("  P[ni] = %s; memOf[ni] = -1;" % ("P[%d]" % (op["reuse"] - 1) if op.get("reuse") else "&I[ni]"))
                 o.append("  insts[ninsts++] = P[ni];")
+                if not op.get("reuse"):
+                    # the embedder's storage for an instance is whatever it is (an automatic variable, malloc'ed): not zero
+                    o.append("  memset(P[ni], 0xA5, sizeof *P[ni]);")
                 o.append("  if (setjmp(jb) == 0) { %sInstantiate(P[ni], %s_resolve); fprintf(out, \",\\\"status\\\":\\\"%s\\\"\"); }" % (
                     mod, mod, "returned" if m.get("start", -1) not in (None, -1) else "done"))
                 o.append('  else fprintf(out, ",\\"status\\":\\"trapped\\",\\"trap\\":\\"%s\\"", trapName(trapCode));')
